@@ -814,6 +814,7 @@ func (x *rlWorld) step(c *ctx, cls map[string]any, r *rand.Rand) ev {
 		case "Unregistered":
 			name := map[string]string{"last-byte": "registered.examplf", "prefix": "registered.exampl", "suffix": "registered.example.", "inner-nul": "registered\x00example",
 				"case": "Registered.example", "empty": "", "long": strings.Repeat("registered.example", 9),
+				"space-suffix": "registered.example ", "space-prefix": " registered.example", "tab-suffix": "registered.example\t", "upper": "REGISTERED.EXAMPLE",
 				"nul-suffix": "registered.example\x00.attacker.example", "nul-suffix-short": "registered.example\x00a", "nul-prefix": "\x00registered.example"}[cls["variant"].(string)]
 			enc = remarshal(mk(w, name))
 		case "ForeignIssuer": // sealed to another issuer's name key
@@ -1963,7 +1964,8 @@ func genIssuance(c *ctx, emit func(ev)) {
 			for _, k := range []int{0, 1, 100, 256, 257, 258, 300} {
 				rl(ev{"kind": "BadInner", "k": k})
 			}
-			for _, v := range []string{"last-byte", "prefix", "suffix", "inner-nul", "case", "empty", "long", "nul-suffix", "nul-suffix-short", "nul-prefix"} {
+			for _, v := range []string{"last-byte", "prefix", "suffix", "inner-nul", "case", "empty", "long", "nul-suffix", "nul-suffix-short", "nul-prefix",
+				"space-suffix", "space-prefix", "tab-suffix", "upper"} {
 				rl(ev{"kind": "Unregistered", "variant": v})
 			}
 		}
